@@ -58,5 +58,30 @@ func c02bScenarios() []*Scenario {
 	mk("B2-rotate-close-exit-flusher", 1024, flusher, rot)
 	mk("B3-rotate-close-exit-flusher-dumper", 2, both, rot)
 	mk("B4-two-rotations-close-exit-flusher", 2, flusher, rot2)
+	// B5: no rotation at all: a write into the file that the flusher is writing out right now, then Close and exit;
+	// the flush decides what it writes before the new record arrives, and Close trusts the buffered-bytes counter
+	c := cfgSched("B5-set-during-flush-close-exit")
+	out = append(out, &Scenario{Property: "C02", Name: c.Name, Cfg: c, Run: func(sc *Scenario, s *vsched.Sched) (*Mismatch, string) {
+		m := NewMachine(s, sc.Cfg, nil)
+		defer m.Exit()
+		rec := &Recorder{st: m.St}
+		rec.Set(0, "a", val(0, 0, "a", 0))
+		Tick()
+		s.Parallel(func() {
+			rec.Set(1, "b", val(1, 0, "b", 0)) // fits into file 0
+			m.St.Close()
+			s.Freeze()
+		}, func() { m.St.VerifFlush(true) })
+		obs := obsString(rec.Ops)
+		m.Exit()
+		if err := m.Open(); err != nil {
+			return &Mismatch{Op: "reopen", Where: "open", Want: "opens", Got: err.Error(), Class: "open-error"}, obs
+		}
+		s.Drain()
+		if mm := CheckFinal(m.St, rec.Ops, "reopen"); mm != nil {
+			return mm, obs
+		}
+		return nil, obs
+	}})
 	return out
 }
